@@ -1,6 +1,6 @@
 (* C15 — property theorems (statements only; proofs live in Proofs.v). *)
-From Coq Require Import ZArith NArith Bool List.
-Require Import QV.C15.Model QV.C15.Spec QV.C15.Proofs QV.C15.Proofs_upd QV.C15.Proofs_prep.
+From Coq Require Import ZArith NArith QArith Bool List.
+Require Import QV.C15.Model QV.C15.Spec QV.C15.ModelQ QV.C15.Proofs QV.C15.Proofs_upd QV.C15.Proofs_prep QV.C15.Proofs_q.
 Import ListNotations.
 Open Scope Z_scope.
 
@@ -200,6 +200,24 @@ Theorem C15_prepare_refuted : exists us f mn mx tabs tabs' tr tabs2 w2 tr2,
   tr2 <> tr /\ tabs2 <> map (update us) tabs'.
 Proof. exact prepare_update_needs_same_trace. Qed.
 Print Assumptions C15_prepare_refuted.
+
+(* non-integer values of a count parameter (ModelQ.v).  The integer model is the restriction of the rational one;
+   on integer values the update path (VolatileRepetitionCount.__int__) and the instantiation path
+   (get_repetition_count_value) agree; on a non-integer value the update rounds (ties to even) where the
+   instantiation raises: known finding C15-noninteger-update-rounds *)
+Theorem C15_noninteger_restriction : forall env envq e,
+  (forall x, match envq x, env x with Some q, Some z => (q == inject_Z z)%Q | None, None => True | _, _ => False end) ->
+  match evalQ envq e, eval env e with Some q, Some z => (q == inject_Z z)%Q | None, None => True | _, _ => False end.
+Proof. exact evalQ_inject. Qed.
+Print Assumptions C15_noninteger_restriction.
+
+Theorem C15_noninteger_integer_agree : forall q, is_intQ q = true -> count_fresh q = Some (count_update q).
+Proof. exact count_integer_agree. Qed.
+Print Assumptions C15_noninteger_integer_agree.
+
+Theorem C15_noninteger_refuted : exists q, count_fresh q = None /\ count_update q = 2.
+Proof. exact count_noninteger_refuted. Qed.
+Print Assumptions C15_noninteger_refuted.
 
 (* NOT proved (evaluated executably by check_spec, clause 3, on every Tabor case): the parser step.  With
    C15_adv_tables_commute the fresh compilation parses `map (update us) tabs`; what is missing is that
